@@ -15,6 +15,7 @@
 package etcd
 
 import (
+	"bytes"
 	"context"
 	"fmt"
 	"time"
@@ -157,6 +158,26 @@ func (s *RPCServer) DeleteRange(ctx context.Context, r *etcdserverpb.DeleteRange
 	return nil, fmt.Errorf("delete is not supported")
 }
 
+// The recognisers below accept exactly the transaction shapes kube-apiserver issues: every part of the transaction
+// must name the same single key and carry no option that is not implemented. Anything else falls through to
+// "unsupported transaction" instead of being executed as something it is not.
+
+func sameSingleKeyCompare(c *etcdserverpb.Compare, key []byte) bool {
+	return len(c.RangeEnd) == 0 && bytes.Equal(c.Key, key)
+}
+
+func plainGet(r *etcdserverpb.RangeRequest, key []byte) bool {
+	return r != nil && len(r.RangeEnd) == 0 && bytes.Equal(r.Key, key)
+}
+
+func plainDelete(d *etcdserverpb.DeleteRangeRequest, key []byte) bool {
+	return d != nil && len(d.RangeEnd) == 0 && !d.PrevKv && bytes.Equal(d.Key, key)
+}
+
+func plainPut(p *etcdserverpb.PutRequest) bool {
+	return p != nil && !p.PrevKv && !p.IgnoreValue && !p.IgnoreLease
+}
+
 func isCreate(txn *etcdserverpb.TxnRequest) *etcdserverpb.PutRequest {
 	if len(txn.Compare) == 1 &&
 		txn.Compare[0].Target == etcdserverpb.Compare_MOD &&
@@ -164,7 +185,8 @@ func isCreate(txn *etcdserverpb.TxnRequest) *etcdserverpb.PutRequest {
 		txn.Compare[0].GetModRevision() == 0 &&
 		len(txn.Failure) == 0 &&
 		len(txn.Success) == 1 &&
-		txn.Success[0].GetRequestPut() != nil {
+		txn.Success[0].GetRequestPut() != nil &&
+		sameSingleKeyCompare(txn.Compare[0], txn.Success[0].GetRequestPut().Key) {
 		return txn.Success[0].GetRequestPut()
 	}
 	return nil
@@ -175,7 +197,9 @@ func isDelete(txn *etcdserverpb.TxnRequest) (int64, []byte, bool) {
 		len(txn.Failure) == 0 &&
 		len(txn.Success) == 2 &&
 		txn.Success[0].GetRequestRange() != nil &&
-		txn.Success[1].GetRequestDeleteRange() != nil {
+		txn.Success[1].GetRequestDeleteRange() != nil &&
+		plainDelete(txn.Success[1].GetRequestDeleteRange(), txn.Success[1].GetRequestDeleteRange().Key) &&
+		plainGet(txn.Success[0].GetRequestRange(), txn.Success[1].GetRequestDeleteRange().Key) {
 		rng := txn.Success[1].GetRequestDeleteRange()
 		return 0, rng.Key, true
 	}
@@ -185,7 +209,10 @@ func isDelete(txn *etcdserverpb.TxnRequest) (int64, []byte, bool) {
 		len(txn.Failure) == 1 &&
 		txn.Failure[0].GetRequestRange() != nil &&
 		len(txn.Success) == 1 &&
-		txn.Success[0].GetRequestDeleteRange() != nil {
+		txn.Success[0].GetRequestDeleteRange() != nil &&
+		plainDelete(txn.Success[0].GetRequestDeleteRange(), txn.Compare[0].Key) &&
+		plainGet(txn.Failure[0].GetRequestRange(), txn.Compare[0].Key) &&
+		sameSingleKeyCompare(txn.Compare[0], txn.Compare[0].Key) {
 		return txn.Compare[0].GetModRevision(), txn.Success[0].GetRequestDeleteRange().Key, true
 	}
 	return 0, nil, false
@@ -198,7 +225,10 @@ func isUpdate(txn *etcdserverpb.TxnRequest) (int64, []byte, []byte, int64, bool)
 		len(txn.Success) == 1 &&
 		txn.Success[0].GetRequestPut() != nil &&
 		len(txn.Failure) == 1 &&
-		txn.Failure[0].GetRequestRange() != nil {
+		txn.Failure[0].GetRequestRange() != nil &&
+		plainPut(txn.Success[0].GetRequestPut()) &&
+		sameSingleKeyCompare(txn.Compare[0], txn.Success[0].GetRequestPut().Key) &&
+		plainGet(txn.Failure[0].GetRequestRange(), txn.Compare[0].Key) {
 		return txn.Compare[0].GetModRevision(),
 			txn.Compare[0].Key,
 			txn.Success[0].GetRequestPut().Value,
